@@ -1,8 +1,7 @@
 (* JsExpr/Spec.v — a tree-directed description of what the Pratt model accepts:
      - views of the generated operator rows ([sview], [pview]) with one-step unfolding lemmas of the parser,
      - the level [lvl] of a tree (the precLeft the parser holds after building it),
-     - [spells q inf ts t]: ts is a spelling of t that the parser accepts (q: with the trailing-comma quirk
-       of parseParenthesizedExpression),
+     - [spells inf ts t]: ts is a spelling of t that the parser accepts,
      - finite facts about the generated table, each checked by vm_compute.
    The soundness/completeness proofs (Sound.v, Complete.v) are stated against [spells]; Equiv.v relates
    [spells] to the standard's productions (Grammar.v). *)
@@ -78,21 +77,19 @@ Definition group_tail (f : nat) (inf : bool) (prec pG pS : Z) (rest : list token
     r' <~ expect tt_CloseParenToken r ;;
     parse_suffix f inf (EGroup x) prec primary r'
   else
-    '(args, r) <~ parse_cover f rest [] ;;
-    match r with
-    | a :: _ => if ty a =? tt_ArrowToken then OutFrag else
-        match args with
-        | [] => Fail
-        | [x] => parse_suffix f inf (EGroup x) prec primary r
-        | _ => parse_suffix f inf (EGroup (EComma args)) prec primary r
-        end
-    | [] =>
-        match args with
-        | [] => Fail
-        | [x] => parse_suffix f inf (EGroup x) prec primary r
-        | _ => parse_suffix f inf (EGroup (EComma args)) prec primary r
-        end
-    end.
+    '(args, tc, r) <~ parse_cover f rest [] false ;;
+    if (match r with a :: _ => ty a =? tt_ArrowToken | [] => false end) then OutFrag
+    else
+      match args with
+      | [] => Fail
+      | _ =>
+        if tc then Fail
+        else
+          match args with
+          | [x] => parse_suffix f inf (EGroup x) prec primary r
+          | _ => parse_suffix f inf (EGroup (EComma args)) prec primary r
+          end
+      end.
 
 Lemma parse_expr_step f inf prec k rest :
   parse_expr (S f) inf prec (k :: rest) =
@@ -217,20 +214,24 @@ Lemma parse_args_step f ts acc :
   end.
 Proof. reflexivity. Qed.
 
-(* the argument loop of parseParenthesizedExpression is the loop of parseArguments *)
-Lemma parse_cover_args f : forall ts acc, parse_cover f ts acc = parse_args f ts acc.
-Proof.
-  induction f as [|f IH]; intros ts acc; [reflexivity|].
-  cbn [parse_cover parse_args]. destruct ts as [|k r]; [reflexivity|].
-  destruct (ty k =? tt_CloseParenToken); [reflexivity|].
-  destruct (ty k =? tt_EllipsisToken); [reflexivity|].
-  change pratt_args_level with prec_OpAssign.
-  destruct (parse_expr f true prec_OpAssign (k :: r)) as [[a r1]| | |]; cbn [rbind]; try reflexivity.
-  destruct r1 as [|c r2]; [reflexivity|].
-  destruct (ty c =? tt_CommaToken) eqn:E1; destruct (ty c =? tt_CloseParenToken) eqn:E2; try reflexivity.
-  - apply Z.eqb_eq in E1. apply Z.eqb_eq in E2. rewrite E1 in E2. discriminate.
-  - apply IH.
-Qed.
+Lemma parse_cover_step f ts acc tc :
+  parse_cover (S f) ts acc tc =
+  match ts with
+  | [] => Fail
+  | k :: r =>
+      if ty k =? tt_CloseParenToken then Ok (rev acc, tc, r)
+      else if ty k =? tt_EllipsisToken then OutFrag
+      else '(a, r1) <~ parse_expr f true prec_OpAssign ts ;;
+           match r1 with
+           | [] => Fail
+           | c :: r2 =>
+               if ty c =? tt_CommaToken then
+                 parse_cover f r2 (a :: acc) (match r2 with k2 :: _ => ty k2 =? tt_CloseParenToken | [] => false end)
+               else if ty c =? tt_CloseParenToken then Ok (rev (a :: acc), false, r2)
+               else Fail
+           end
+  end.
+Proof. reflexivity. Qed.
 
 (* ---- levels ------------------------------------------------------------------------------------------------- *)
 
@@ -238,12 +239,21 @@ Definition bin_level (op : Z) : Z :=
   match sview true op with ABin _ _ _ _ pN => pN | _ => -1 end.
 
 Definition is_postfix_op (op : Z) : bool := (op =? tt_PostIncrToken) || (op =? tt_PostDecrToken).
+(* the update operators: x++ x-- ++x --x *)
+Definition is_update_op (op : Z) : bool :=
+  is_postfix_op op || (op =? tt_PreIncrToken) || (op =? tt_PreDecrToken).
+
+Lemma postfix_is_update op : is_postfix_op op = true -> is_update_op op = true.
+Proof. unfold is_update_op. intros H. rewrite H. reflexivity. Qed.
+
+Lemma lvl_postfix op : is_postfix_op op = true -> (if is_update_op op then prec_OpUpdate else prec_OpUnary) = prec_OpUpdate.
+Proof. intros H. rewrite (postfix_is_update _ H). reflexivity. Qed.
 
 (* the precLeft the parser holds after it has built the node *)
 Fixpoint lvl (t : expr) : Z :=
   match t with
   | EVar _ | ELit _ _ | EGroup _ => primary
-  | EUnary op _ => if is_postfix_op op then prec_OpUpdate else prec_OpUnary
+  | EUnary op _ => if is_update_op op then prec_OpUpdate else prec_OpUnary
   | EBinary op _ _ => bin_level op
   | ECond _ _ _ => prec_OpAssign
   | EDot x _ => cap prec_OpMember (lvl x)
@@ -313,59 +323,54 @@ Proof. destruct rest; [reflexivity|]. cbn [ncont]. apply ret_view_mono. Qed.
 
 (* ---- spellings ---------------------------------------------------------------------------------------------- *)
 
-Inductive spells (q : bool) : bool -> list token -> expr -> Prop :=
+Inductive spells : bool -> list token -> expr -> Prop :=
 | SP_leaf inf k e :
-    pview k = PLeaf e -> spells q inf [k] e
+    pview k = PLeaf e -> spells inf [k] e
 | SP_group inf ko pG pS ts t kc :
-    pview ko = PGroup pG pS -> spells q true ts t -> pS <= lvl t -> ty kc = tt_CloseParenToken ->
-    spells q inf (ko :: ts ++ [kc]) (EGroup t)
-| SP_group_quirk inf ko pG pS ts t km kc :
-    q = true ->
-    pview ko = PGroup pG pS -> spells q true ts t -> pS <= lvl t ->
-    ty km = tt_CommaToken -> ty kc = tt_CloseParenToken ->
-    spells q inf (ko :: ts ++ [km; kc]) (EGroup t)
+    pview ko = PGroup pG pS -> spells true ts t -> pS <= lvl t -> ty kc = tt_CloseParenToken ->
+    spells inf (ko :: ts ++ [kc]) (EGroup t)
 | SP_prefix inf k pG pO pS pN ts x :
-    pview k = PUnary pG pO pS pN -> spells q inf ts x -> pS <= lvl x ->
-    spells q inf (k :: ts) (EUnary pO x)
+    pview k = PUnary pG pO pS pN -> spells inf ts x -> pS <= lvl x ->
+    spells inf (k :: ts) (EUnary pO x)
 | SP_postfix inf k pL pR pO pN xs x :
-    sview inf (ty k) = APost pL pR pO pN -> lt k = false -> spells q inf xs x -> pR <= lvl x ->
-    spells q inf (xs ++ [k]) (EUnary pO x)
+    sview inf (ty k) = APost pL pR pO pN -> lt k = false -> spells inf xs x -> pR <= lvl x ->
+    spells inf (xs ++ [k]) (EUnary pO x)
 | SP_binary inf k pL pR pX pS pN xs x ys y :
-    sview inf (ty k) = ABin pL pR pX pS pN -> spells q inf xs x -> okl_of pR pX (lvl x) = true ->
-    spells q inf ys y -> pS <= lvl y ->
-    spells q inf (xs ++ k :: ys) (EBinary (ty k) x y)
+    sview inf (ty k) = ABin pL pR pX pS pN -> spells inf xs x -> okl_of pR pX (lvl x) = true ->
+    spells inf ys y -> pS <= lvl y ->
+    spells inf (xs ++ k :: ys) (EBinary (ty k) x y)
 | SP_dot inf kd pR pC xs x n :
-    sview inf (ty kd) = ADot pR pC -> spells q inf xs x -> pR <= lvl x ->
+    sview inf (ty kd) = ADot pR pC -> spells inf xs x -> pR <= lvl x ->
     is_identifier_name (ty n) = true -> ty n <> tt_PrivateIdentifierToken ->
-    spells q inf (xs ++ [kd; n]) (EDot x (data n))
+    spells inf (xs ++ [kd; n]) (EDot x (data n))
 | SP_index inf ko pR pC pS xs x ys y kc :
-    sview inf (ty ko) = AIndex pR pC pS -> spells q inf xs x -> pR <= lvl x ->
-    spells q true ys y -> pS <= lvl y -> ty kc = tt_CloseBracketToken ->
-    spells q inf (xs ++ ko :: ys ++ [kc]) (EIndex x y)
+    sview inf (ty ko) = AIndex pR pC pS -> spells inf xs x -> pR <= lvl x ->
+    spells true ys y -> pS <= lvl y -> ty kc = tt_CloseBracketToken ->
+    spells inf (xs ++ ko :: ys ++ [kc]) (EIndex x y)
 | SP_call inf ko pL pR pC xs x ats args :
-    sview inf (ty ko) = ACall pL pR pC -> spells q inf xs x -> pR <= lvl x ->
-    spells_args q ats args ->
-    spells q inf (xs ++ ko :: ats) (ECall x args)
+    sview inf (ty ko) = ACall pL pR pC -> spells inf xs x -> pR <= lvl x ->
+    spells_args ats args ->
+    spells inf (xs ++ ko :: ats) (ECall x args)
 | SP_cond inf kq pL pR pS pE pN cs c xs x kc ys y :
-    sview inf (ty kq) = ACond pL pR pS pE pN -> spells q inf cs c -> pR <= lvl c ->
-    spells q true xs x -> pS <= lvl x -> ty kc = tt_ColonToken ->
-    spells q inf ys y -> pE <= lvl y ->
-    spells q inf (cs ++ kq :: xs ++ kc :: ys) (ECond c x y)
+    sview inf (ty kq) = ACond pL pR pS pE pN -> spells inf cs c -> pR <= lvl c ->
+    spells true xs x -> pS <= lvl x -> ty kc = tt_ColonToken ->
+    spells inf ys y -> pE <= lvl y ->
+    spells inf (cs ++ kq :: xs ++ kc :: ys) (ECond c x y)
 | SP_comma inf k pL pS pN xs x ys y :
-    sview inf (ty k) = AComma pL pS pN -> spells q inf xs x ->
-    spells q inf ys y -> pS <= lvl y ->
-    spells q inf (xs ++ k :: ys) (comma_snoc x y)
+    sview inf (ty k) = AComma pL pS pN -> spells inf xs x ->
+    spells inf ys y -> pS <= lvl y ->
+    spells inf (xs ++ k :: ys) (comma_snoc x y)
 (* the tokens after the '(' of an argument list, up to and including its ')' *)
-with spells_args (q : bool) : list token -> list expr -> Prop :=
+with spells_args : list token -> list expr -> Prop :=
 | SA_end kc :
-    ty kc = tt_CloseParenToken -> spells_args q [kc] []
+    ty kc = tt_CloseParenToken -> spells_args [kc] []
 | SA_last ts a kc :
-    spells q true ts a -> pratt_args_level <= lvl a -> ty kc = tt_CloseParenToken ->
-    spells_args q (ts ++ [kc]) [a]
+    spells true ts a -> pratt_args_level <= lvl a -> ty kc = tt_CloseParenToken ->
+    spells_args (ts ++ [kc]) [a]
 | SA_more ts a km rest l :
-    spells q true ts a -> pratt_args_level <= lvl a -> ty km = tt_CommaToken ->
-    spells_args q rest l ->
-    spells_args q (ts ++ km :: rest) (a :: l).
+    spells true ts a -> pratt_args_level <= lvl a -> ty km = tt_CommaToken ->
+    spells_args rest l ->
+    spells_args (ts ++ km :: rest) (a :: l).
 
 Scheme spells_mind := Induction for spells Sort Prop
   with spells_args_mind := Induction for spells_args Sort Prop.
